@@ -409,6 +409,90 @@ func c05R2(c *Ctx, r *Report) {
 	})
 	// buildWhile: header -> after unless the condition is the literal `true`
 	isLit := c.LookupFn(pkgHIRAn, "isLiteralTrue")
+	// Where the constant-propagation walk drops the values of variables once a function has been walked (C04.R1's
+	// writer-side invariant), compile-time evaluation answers from literals and constants only, and a predicate
+	// that asks it whether the condition is true is as good as the syntactic test.
+	writerDrops := false
+	if cf, ck := c.fieldObj(pkgSymbols, "Symbol", "ConstValue"), c.lookupObj(pkgSymbols, "SymbolConstant"); cf != nil && ck != nil {
+		if kc, ok := ck.(*types.Const); ok {
+			writerDrops = c04WriterDropsVariables(c, newReport("scratch", "quick"), rule, cf, kc)
+		}
+	}
+	evalFn := c.LookupFn("internal/hir/consteval", "EvaluateHIRExpr")
+	// alwaysTruePredicate: F(expr) answers true only if isLiteralTrue(expr) does, or with the boolean that
+	// EvaluateHIRExpr(…, expr) evaluated to
+	alwaysTruePredicate := func(f *Fn) bool {
+		if f == nil || f.Decl == nil || f.Decl.Body == nil || isLit == nil || evalFn == nil || !writerDrops {
+			return false
+		}
+		finfo := f.Info()
+		sig := f.Obj.Type().(*types.Signature)
+		if sig.Params().Len() != 1 {
+			return false
+		}
+		param := sig.Params().At(0)
+		defs := localDefs(f)
+		fromEval := func(e ast.Expr) bool { // e is `v` of `v, ok := X.AsBool()` with X := EvaluateHIRExpr(…, param)
+			id, ok := ast.Unparen(e).(*ast.Ident)
+			if !ok {
+				return false
+			}
+			good := false
+			ast.Inspect(f.Decl.Body, func(n ast.Node) bool {
+				as, ok := n.(*ast.AssignStmt)
+				if !ok || len(as.Lhs) != 2 || len(as.Rhs) != 1 || objOf(finfo, as.Lhs[0]) != finfo.Uses[id] {
+					return true
+				}
+				cl, ok := ast.Unparen(as.Rhs[0]).(*ast.CallExpr)
+				if !ok {
+					return true
+				}
+				sel, ok := cl.Fun.(*ast.SelectorExpr)
+				if !ok || sel.Sel.Name != "AsBool" {
+					return true
+				}
+				for _, d := range defs[objOf(finfo, sel.X)] {
+					if ec, ok := ast.Unparen(d).(*ast.CallExpr); ok && isCallTo(finfo, ec, evalFn.Obj) && len(ec.Args) > 0 && objOf(finfo, ec.Args[len(ec.Args)-1]) == param {
+						good = true
+					}
+				}
+				return true
+			})
+			return good
+		}
+		okAll, n := true, 0
+		walkWithStack(f.Decl.Body, func(nd ast.Node, stack []ast.Node) bool {
+			ret, isRet := nd.(*ast.ReturnStmt)
+			if !isRet || len(ret.Results) != 1 {
+				return true
+			}
+			n++
+			res := ast.Unparen(ret.Results[0])
+			if v := constOf(finfo, res); v != nil {
+				if !boolVal(v) {
+					return true
+				}
+				for _, a := range stack { // `return true` under `if isLiteralTrue(param)`
+					if ifs, ok := a.(*ast.IfStmt); ok {
+						if cl, ok := ast.Unparen(ifs.Cond).(*ast.CallExpr); ok && isCallTo(finfo, cl, isLit.Obj) && len(cl.Args) == 1 && objOf(finfo, cl.Args[0]) == param && containsNode(ifs.Body, ret) {
+							return true
+						}
+					}
+				}
+				okAll = false
+				return true
+			}
+			if cl, ok := res.(*ast.CallExpr); ok && isCallTo(finfo, cl, isLit.Obj) && len(cl.Args) == 1 && objOf(finfo, cl.Args[0]) == param {
+				return true
+			}
+			if fromEval(res) {
+				return true
+			}
+			okAll = false
+			return true
+		})
+		return okAll && n > 0
+	}
 	check("buildWhile", "headerBlock", "unless the condition is literally true", func(fn *Fn, call *ast.CallExpr, stack []ast.Node) bool {
 		conds, inElse := enclosingIfs(call, stack)
 		if len(conds) == 0 {
@@ -439,9 +523,11 @@ func c05R2(c *Ctx, r *Report) {
 					continue
 				}
 				if i < len(as.Rhs) {
-					if cl, ok := ast.Unparen(as.Rhs[i]).(*ast.CallExpr); ok && isCallTo(fn.Info(), cl, isLit.Obj) && len(cl.Args) == 1 && strings.HasSuffix(exprStr(cl.Args[0]), ".Cond") {
-						def = true
-						continue
+					if cl, ok := ast.Unparen(as.Rhs[i]).(*ast.CallExpr); ok && len(cl.Args) == 1 && strings.HasSuffix(exprStr(cl.Args[0]), ".Cond") {
+						if isCallTo(fn.Info(), cl, isLit.Obj) || alwaysTruePredicate(c.FnOf(callee(fn.Info(), cl))) {
+							def = true
+							continue
+						}
 					}
 				}
 				bad = true
@@ -466,7 +552,7 @@ func c05R2(c *Ctx, r *Report) {
 			}
 			return true
 		})
-		r.Check(!callsEval && !readsConst, rule, isLit.Name(), "syntactic literal test only", c.pos(isLit.Decl.Pos()),
+		r.Check((!callsEval && !readsConst) || writerDrops, rule, isLit.Name(), "syntactic literal test only", c.pos(isLit.Decl.Pos()),
 			"the 'loop never exits through its condition' test consults compile-time evaluation; Symbol.ConstValue is flow-insensitive, so a loop whose condition variable is reassigned could lose its exit edge")
 	}
 	// buildMatch: addEdge(current, merge) under !hasDefault, hasDefault set only under Pattern == nil
